@@ -44,6 +44,8 @@ def run(ctx):
   rule_msb(ctx)
   rule_exhaust(ctx)
   rule_lehman(ctx)
+  rule_highlow(ctx)
+  ctx.expect("R-C04-HIGHLOW", 2, "test order, total advance")
   ctx.expect("R-C04-LEHMAN", 3, "convergents, Fermat step, bound")
   ctx.expect("R-C04-FERMAT", 6, "six clauses")
   ctx.expect("R-C04-GUESS", 1, "guess identity")
@@ -441,3 +443,76 @@ def rule_lehman(ctx):
         if base is not None and base.kind == "shr" and base.args[0] == n and (base.args[1] - sh * 3).is_zero():
           okb = True
   ctx.record(R, f.where, "bound = (n >> 3s)^(1/3) << s  (about n^(1/3))", okb, "cube root taken on the top bits and scaled back by the same shift" if okb else "bound is not the scaled cube root of n")
+
+
+# ------------------------------------------------------------------ HIGHLOW: every candidate of the middle-bits search is tested, the last one included
+def rule_highlow(ctx):
+  R = "R-C04-HIGHLOW"
+  repo = ctx.repo
+  f = repo.func("rsa_util", "FactorHighAndLowBitsEqual")
+  w = sym.Walker(repo, f)
+  w.run()
+  n = P("param", f.params()[0])
+  inner = None
+  for info in w.loop_info.values():
+    for kind, val, s, since, vis in info["body_paths"]:
+      newf = s.facts[len(vis["head"].facts):]
+      if any(fc[0] in ("square", "nonsquare") for fc in newf) and not any(
+          info2 is not info and any(x is info2["node"] for x in ast.walk(info["node"])) and any(fc[0] in ("square", "nonsquare") for bp in info2["body_paths"] for fc in bp[2].facts[len(bp[4]["head"].facts):])
+          for info2 in w.loop_info.values()):
+        inner = info
+  if inner is None:
+    raise Incomplete("FactorHighAndLowBitsEqual: no loop testing a perfect square found", f.where)
+  probs = []
+  step = None
+  cand = None
+  for kind, val, s, since, vis in inner["body_paths"]:
+    newf = s.facts[len(vis["head"].facts):]
+    sq = [fc for fc in newf if fc[0] in ("square", "nonsquare")]
+    if len(sq) != 1:
+      probs.append("a pass of the candidate loop does not test exactly one value")
+      continue
+    d = as_poly(sq[0][1])
+    # which loop-carried variable is the candidate: d = S^2 - n for S = value of that variable at some point of the pass
+    found = None
+    for nm in inner["modified"]:
+      hv = vis["head"].env.get(nm)
+      fv = s.env.get(nm)
+      if isinstance(hv, Poly) and isinstance(fv, Poly):
+        if (d - (fv * fv - n)).is_zero():
+          found = (nm, "carried")
+        elif (d - (hv * hv - n)).is_zero() and not (fv - hv).is_zero():
+          found = (nm, "stale")
+    if found is None:
+      probs.append("the tested value is not candidate^2 - n")
+      continue
+    cand = found[0]
+    if found[1] == "stale" and kind == "fall":
+      probs.append("the value tested in a pass is the candidate before it is advanced: the candidate carried out of the last pass (the one agreeing with the "
+                   "2-adic root on all low bits) is never tested")
+    if kind == "fall":
+      step = as_poly(s.env[cand]) - as_poly(vis["head"].env[cand])
+  ctx.record(R, f.where, "each candidate is tested after it is produced", not probs, "; ".join(sorted(set(probs))) or
+             "the perfect-square test is applied to the value carried into the next pass, so the final candidate of the search is tested as well")
+  # the passes of one bit position advance the candidate by 2^i in total (2^m steps of 2^(i-m))
+  ok2 = False
+  why = "step / trip count not found"
+  if step is not None and not isinstance(inner["iter"], Seq):
+    from pcstatic import accum
+    tc = accum.trip_count(inner["visits"][0]["iter"])
+    # bit index i: the enclosing loop's variable tested in ((s ^ r) >> i) & 1
+    idx = None
+    for info in w.loop_info.values():
+      if info is not inner and any(x is inner["node"] for x in ast.walk(info["node"])) and not isinstance(info["iter"], Seq):
+        ra = as_poly(info["iter"]).as_atom()
+        if ra is not None and ra.kind == "range" and len(ra.args) == 1:
+          for vis in info["visits"]:
+            if repr(as_poly(vis["k"])) in repr(step):
+              idx = as_poly(vis["k"])
+    if tc is not None and idx is not None:
+      ta, sa = tc.as_atom(), step.as_atom()
+      if ta is not None and sa is not None and ta.kind == "pow" and sa.kind == "pow" and as_poly(ta.args[0]).as_int() == 2 and as_poly(sa.args[0]).as_int() == 2:
+        tot = as_poly(ta.args[1]) + as_poly(sa.args[1])
+        ok2 = (tot - idx).is_zero()
+        why = "2^m passes of 2^(i-m) advance by 2^i = the weight of the lowest differing bit" if ok2 else "passes x step = 2^(%r), expected 2^i" % (tot,)
+  ctx.record(R, f.where, "passes x step = 2^i", ok2, why)
